@@ -43,6 +43,10 @@ def finding_matches(entry, pid, cand) -> bool:
     if "inputs" in m and list(cand["args"]) not in [list(x) if isinstance(x, list) else [x] for x in m["inputs"]] \
             and (cand["args"][0] if cand["args"] else None) not in m["inputs"]:
         return False
+    if "v_in" in m:
+        for fld, allowed in m["v_in"].items():
+            if v.get(fld) not in allowed:
+                return False
     if "input2_regex" in m:
         import re
         if len(cand["args"]) < 2 or not isinstance(cand["args"][1], str) or not re.search(m["input2_regex"], cand["args"][1], re.S):
